@@ -55,6 +55,32 @@ fn hop_eq<T: Serialize + DeserializeOwned + PartialEq + std::fmt::Debug>(x: &T, 
     y
 }
 
+/// hop for types without a typed equality but with a deterministic `Debug` form (no hash maps inside): the printed object that
+/// arrives is the printed object that was sent (`Some(0)` is not `None`)
+fn hop_dbg<T: Serialize + DeserializeOwned + std::fmt::Debug>(x: &T, ty: &str, out: &mut Out, sig: &str) -> T {
+    let y = hop(x, ty, out, sig);
+    // a bit vector prints its heap address and capacity: not part of the value
+    let clean = |t: String| -> String {
+        let mut o = String::with_capacity(t.len());
+        let mut rest = t.as_str();
+        while let Some(i) = rest.find("addr: 0x") {
+            o.push_str(&rest[..i]);
+            let tail = &rest[i..];
+            let end = tail.find(" }").unwrap_or(tail.len());
+            rest = &tail[end..];
+        }
+        o.push_str(rest);
+        o
+    };
+    let (a, b) = (clean(format!("{x:?}")), clean(format!("{y:?}")));
+    if a != b {
+        let at = a.chars().zip(b.chars()).position(|(p, q)| p != q).unwrap_or(a.len().min(b.len()));
+        let from = at.saturating_sub(60);
+        out.oracle_fail("the object that arrives after a wire hop is not the object that was sent", &json!({"fam":"c15.hop","sig":sig,"type":ty,"sent":a.chars().skip(from).take(200).collect::<String>(),"arrived":b.chars().skip(from).take(200).collect::<String>()}), &Value::Null);
+    }
+    y
+}
+
 /// one complete flow (issue, hold, present, verify) with or without a hop at every hand-over point; returns the verdict
 fn flow_with_hops(eng: &mut Engine, rng_seed: u64, revocable: bool, w3c_form: bool, hops: bool, out: &mut Out) -> String {
     let w = eng.cast.w.clone();
@@ -63,24 +89,24 @@ fn flow_with_hops(eng: &mut Engine, rng_seed: u64, revocable: bool, w3c_form: bo
     let h = |out: &mut Out, ty: &str| -> bool { let _ = (out, ty); hops };
     let ls = prover::create_link_secret().unwrap();
     // schema / cred def / key proof travel from issuer to ledger to holder
-    let schema = if h(out, "Schema") { hop(&d.schema, "Schema", out, "") } else { d.schema.clone() };
+    let schema = if h(out, "Schema") { hop_dbg(&d.schema, "Schema", out, "") } else { d.schema.clone() };
     let cd = if hops { hop(&d.cd, "CredentialDefinition", out, "") } else { d.cd.try_clone().unwrap() };
     let cdp: CredentialDefinitionPrivate = if hops { hop(&d.cdp, "CredentialDefinitionPrivate", out, "") } else { serde_json::from_value(serde_json::to_value(&d.cdp).unwrap()).unwrap() };
-    let kcp: CredentialKeyCorrectnessProof = if hops { hop(&d.kcp, "CredentialKeyCorrectnessProof", out, "") } else { d.kcp.try_clone().unwrap() };
+    let kcp: CredentialKeyCorrectnessProof = if hops { hop_dbg(&d.kcp, "CredentialKeyCorrectnessProof", out, "") } else { d.kcp.try_clone().unwrap() };
     let offer = issuer::create_credential_offer(d.sid.clone(), d.cid.clone(), &kcp).unwrap();
-    let offer = if hops { hop(&offer, "CredentialOffer", out, "") } else { offer };
+    let offer = if hops { hop_dbg(&offer, "CredentialOffer", out, "") } else { offer };
     let (req, meta) = prover::create_credential_request(Some("entropy"), None, &cd, &ls, "ls", &offer).unwrap();
-    let (req, meta) = if hops { (hop(&req, "CredentialRequest", out, ""), hop(&meta, "CredentialRequestMetadata", out, "")) } else { (req, meta) };
+    let (req, meta) = if hops { (hop_dbg(&req, "CredentialRequest", out, ""), hop_dbg(&meta, "CredentialRequestMetadata", out, "")) } else { (req, meta) };
     let vals = if revocable { vec![("name", "Alice"), ("age", "25"), ("dept", "R&D")] } else { vec![("name", "Alice"), ("age", "25"), ("sex", "F"), ("height", "170")] };
     let vals: Vec<(String, String)> = vals.into_iter().map(|(a, b)| (a.to_string(), b.to_string())).collect();
     // revocation objects
     let reg = d.regs.first();
     let (rrd, rrdp, list0) = match reg {
         Some(r) if revocable => {
-            let rrd = if hops { hop(&r.def, "RevocationRegistryDefinition", out, "") } else { r.def.clone() };
+            let rrd = if hops { hop_dbg(&r.def, "RevocationRegistryDefinition", out, "") } else { r.def.clone() };
             let rrdp: anoncreds::data_types::rev_reg_def::RevocationRegistryDefinitionPrivate = if hops { hop(&r.def_priv, "RevocationRegistryDefinitionPrivate", out, "") } else { serde_json::from_value(serde_json::to_value(&r.def_priv).unwrap()).unwrap() };
             let l = issuer::create_revocation_status_list(&cd, r.rid.clone(), &rrd, &rrdp, true, Some(10)).unwrap();
-            let l = if hops { hop(&l, "RevocationStatusList", out, "") } else { l };
+            let l = if hops { hop_dbg(&l, "RevocationStatusList", out, "") } else { l };
             (Some(rrd), Some(rrdp), Some(l))
         }
         _ => (None, None, None),
@@ -127,7 +153,7 @@ fn flow_with_hops(eng: &mut Engine, rng_seed: u64, revocable: bool, w3c_form: bo
         let state = match (&reg, &rrd, &list0) {
             (Some(_), Some(def), Some(l)) => {
                 let st = prover::create_or_update_revocation_state(&def.value.tails_location, def, l, idx, None, None).unwrap();
-                Some(if hops { hop(&st, "CredentialRevocationState", out, "") } else { st })
+                Some(if hops { hop_dbg(&st, "CredentialRevocationState", out, "") } else { st })
             }
             _ => None,
         };
@@ -167,7 +193,7 @@ fn flow_with_hops(eng: &mut Engine, rng_seed: u64, revocable: bool, w3c_form: bo
         let state = match (&reg, &rrd, &list0) {
             (Some(_), Some(def), Some(l)) => {
                 let st = prover::create_or_update_revocation_state(&def.value.tails_location, def, l, idx, None, None).unwrap();
-                Some(if hops { hop(&st, "CredentialRevocationState", out, "") } else { st })
+                Some(if hops { hop_dbg(&st, "CredentialRevocationState", out, "") } else { st })
             }
             _ => None,
         };
@@ -225,7 +251,7 @@ pub fn c15(eng: &mut Engine, rng: &mut Rng, thorough: bool, out: &mut Out) -> Ca
     }
     for r in 0..eng.cast.regs.len() {
         for l in eng.cast.regs[r].lists.clone() {
-            hop(&l, "RevocationStatusList", out, "");
+            hop_dbg(&l, "RevocationStatusList", out, "");
         }
     }
     for i in 0..(if thorough { 300 } else { 24 }) {
@@ -251,6 +277,25 @@ pub fn c15(eng: &mut Engine, rng: &mut Rng, thorough: bool, out: &mut Out) -> Ca
             if v1 != v2 {
                 out.oracle_fail("presentation verifies differently after a wire hop", &json!({"fam":"c15.present","sig":"","format":"legacy"}), &json!({"direct": v1, "hopped": v2}));
             }
+        }
+    }
+    // status lists with every boundary form of their timestamp (absent, 0, 1, the largest) over real histories
+    {
+        let base = eng.cast.regs[0].lists[1].clone();
+        let wr = eng.cast.w.def("R");
+        let reg = &wr.regs[eng.cast.regs[0].reg];
+        let mut lists = vec![];
+        for ts in [None, Some(0u64), Some(1), Some(u64::MAX)] {
+            if let Ok(l) = issuer::create_revocation_status_list(&wr.cd, reg.rid.clone(), &reg.def, &reg.def_priv, true, ts) {
+                lists.push(l);
+            }
+        }
+        for ts in [0u64, 1, 20, u64::MAX] {
+            lists.push(issuer::update_revocation_status_list_timestamp_only(ts, &base));
+        }
+        for l in lists {
+            hop_dbg(&l, "RevocationStatusList", out, "");
+            out.count("c15:status-list:boundary-timestamps");
         }
     }
     // presentation requests with every boundary form of their optional parts: intervals with no / one / both bounds (request-wide
@@ -336,6 +381,63 @@ fn codec_cases(rng: &mut Rng, thorough: bool, cases: &mut Cases, out: &mut Out) 
             Err(_) => json!({"err": true}),
         };
         push(json!({"op":"codec_revlist","fam":"c15.codec_revlist","j":l,"nt":true}), imp);
+    }
+    // the whole presentation-request codec (hand-written Deserialize / Serialize + derives) against the model: documents built from
+    // member pools that contain every boundary form, then de -> ser, compared as documents
+    {
+        let ivs = [json!({}), json!({"from": null, "to": null}), json!({"from": 5}), json!({"to": 9}), json!({"from": 0, "to": 0}), json!({"from": 18446744073709551615u64}), json!({"from": -1}), json!({"from": "5"}),
+            json!({"from": 5, "extra": 1}), json!([1, 2]), json!([null, null]), json!([1]), json!(null), json!(5), json!("x"), json!({"from": true})];
+        let restr = [json!({}), json!([]), json!([{}]), json!({"$not": {}}), json!({"$and": []}), json!({"$or": []}), json!({"$or": [{}]}), json!([{"schema_id": null}]), json!([{"schema_id": null, "cred_def_id": "x:y"}]),
+            json!({"schema_name": {"$in": []}}), json!({"cred_def_id": "a:b"}), json!({"attr::name::value": {"$like": "A%"}}), json!({"a": {}}), json!({"a": {"$x": 1}}), json!({"$and": {}}), json!(null), json!(7), json!("s"),
+            json!({"$or": [{"schema_id": "x"}, {"$not": {"issuer_did": {"$neq": "y"}}}]}), json!({"x": {"$in": ["a", 1]}})];
+        let names = [json!("name"), json!(""), json!(" Na me "), json!(null), json!(5), json!(["a"])];
+        let namess = [json!(["a", "b"]), json!([]), json!(null), json!("a"), json!([1]), json!(["a", "a"])];
+        let ptypes = [json!(">="), json!("<="), json!(">"), json!("<"), json!("GE"), json!("=="), json!(null), json!(5), json!({">=": null}), json!({">=": 1}), json!([">="])];
+        let pvals = [json!(18), json!(0), json!(-5), json!(2147483647), json!(2147483648i64), json!(-2147483648i64), json!(-2147483649i64), json!("18"), json!(null), json!(true), json!(1.5)];
+        let nonces = [json!("1"), json!("007"), json!(""), json!("12a"), json!(42), json!([1, 2]), json!(null), json!(-1), json!("99999999999999999999999999")];
+        let vers = [json!("1.0"), json!("2.0"), json!("3.0"), json!(null), json!(1), json!("")];
+        let n_docs = if thorough { 20_000 } else { 1_200 };
+        for i in 0..n_docs {
+            let mut doc = serde_json::Map::new();
+            // mostly valid members, one or two odd ones per document
+            let odd = |rng: &mut Rng| rng.chance(1, 30);
+            let pickv = |rng: &mut Rng, pool: &[Value], valid: usize| -> Value { if rng.chance(1, 14) { rng.pick(pool).clone() } else { pool[rng.below(valid as u64) as usize].clone() } };
+            if !odd(rng) || rng.chance(1, 2) { doc.insert("nonce".into(), pickv(rng, &nonces, 2)); }
+            if !odd(rng) { doc.insert("name".into(), if odd(rng) { json!(5) } else { json!("req") }); }
+            if !odd(rng) { doc.insert("version".into(), if odd(rng) { json!(null) } else { json!("0.1") }); }
+            if rng.chance(2, 3) { doc.insert("ver".into(), pickv(rng, &vers, 2)); }
+            if rng.chance(2, 3) { doc.insert("non_revoked".into(), pickv(rng, &ivs, 5)); }
+            if rng.chance(1, 10) { doc.insert("unknown_member".into(), json!({"x": [1, 2]})); }
+            let mut attrs = serde_json::Map::new();
+            for k in 0..rng.below(4) {
+                let mut a = serde_json::Map::new();
+                if rng.chance(2, 3) { a.insert("name".into(), pickv(rng, &names, 3)); }
+                if rng.chance(1, 3) { a.insert("names".into(), pickv(rng, &namess, 2)); }
+                if rng.chance(1, 2) { a.insert("restrictions".into(), pickv(rng, &restr, 13)); }
+                if rng.chance(1, 2) { a.insert("non_revoked".into(), pickv(rng, &ivs, 5)); }
+                if rng.chance(1, 12) { a.insert("zzz".into(), json!(1)); }
+                attrs.insert(format!("a{k}"), if rng.chance(1, 25) { json!(["x", null, null, null]) } else { Value::Object(a) });
+            }
+            match rng.below(30) { 0 => {} 1 => { doc.insert("requested_attributes".into(), json!(null)); } 2 => { doc.insert("requested_attributes".into(), json!([])); } _ => { doc.insert("requested_attributes".into(), Value::Object(attrs)); } }
+            let mut preds = serde_json::Map::new();
+            for k in 0..rng.below(3) {
+                let mut p = serde_json::Map::new();
+                if !odd(rng) { p.insert("name".into(), pickv(rng, &names, 3)); }
+                if !odd(rng) { p.insert("p_type".into(), pickv(rng, &ptypes, 4)); }
+                if !odd(rng) { p.insert("p_value".into(), pickv(rng, &pvals, 7)); }
+                if rng.chance(1, 2) { p.insert("restrictions".into(), pickv(rng, &restr, 13)); }
+                if rng.chance(1, 2) { p.insert("non_revoked".into(), pickv(rng, &ivs, 5)); }
+                preds.insert(format!("p{k}"), if rng.chance(1, 25) { json!(["age", "<", 5, null, null]) } else { Value::Object(p) });
+            }
+            if rng.chance(5, 6) { doc.insert("requested_predicates".into(), Value::Object(preds)); }
+            let doc = if i % 97 == 96 { json!([doc]) } else { Value::Object(doc) };
+            // (a float literal without a fraction such as 1e2 or -0 cannot be written through serde_json::Value, so none is generated)
+            let imp = match serde_json::from_value::<PresentationRequest>(doc.clone()) {
+                Ok(r) => serde_json::to_value(&r).unwrap(),
+                Err(_) => json!({"err": true}),
+            };
+            push(json!({"op":"codec_req","fam":"c15.codec_req","doc":doc,"nt":true}), imp);
+        }
     }
     // presentation request version
     for ver in [Value::Null, json!("1.0"), json!("2.0"), json!("3.0"), json!(""), json!(1), json!("1"), json!("2.00"), json!(null)] {
@@ -901,6 +1003,12 @@ pub fn c11(eng: &mut Engine, rng: &mut Rng, thorough: bool, out: &mut Out) -> Ca
             let mut extra = names.clone();
             extra.push("extra".into());
             issue("attribute-extra", &offer1, &o1, &req1, g1.clone(), extra, Some(false), out, &mut cases);
+            // extra attributes with names the CL layer or the library uses itself
+            for reserved in ["master_secret", "Master_Secret", "master_ secret", "MASTER_SECRET", "link_secret", "m2", "schema_id"] {
+                let mut e = names.clone();
+                e.push(reserved.to_string());
+                issue("attribute-extra-reserved-name", &offer1, &o1, &req1, g1.clone(), e, Some(false), out, &mut cases);
+            }
             let mut renamed = names.clone();
             renamed[0] = format!("{}x", renamed[0]);
             issue("attribute-renamed", &offer1, &o1, &req1, g1.clone(), renamed, Some(false), out, &mut cases);
@@ -1005,6 +1113,9 @@ pub fn c11(eng: &mut Engine, rng: &mut Rng, thorough: bool, out: &mut Out) -> Ca
                 issue_w("attribute-missing", &offer1, &o1, &req1, g1.clone(), base[..base.len() - 1].to_vec(), Some(false), out, &mut cases);
                 issue_w("attribute-extra-string", &offer1, &o1, &req1, g1.clone(), with(("extra", V::String("x".into()))), Some(false), out, &mut cases);
                 issue_w("attribute-extra-number", &offer1, &o1, &req1, g1.clone(), with(("extra", V::Number(1))), Some(false), out, &mut cases);
+                for reserved in ["master_secret", "Master_Secret", "master_ secret", "link_secret"] {
+                    issue_w("attribute-extra-reserved-name", &offer1, &o1, &req1, g1.clone(), with((reserved, V::String("x".into()))), Some(false), out, &mut cases);
+                }
                 issue_w("attribute-extra-true", &offer1, &o1, &req1, g1.clone(), with(("extra", V::Bool(true))), Some(false), out, &mut cases);
                 issue_w("attribute-extra-false", &offer1, &o1, &req1, g1.clone(), with(("extra", V::Bool(false))), Some(false), out, &mut cases);
                 for b in [true, false] {
@@ -1113,6 +1224,123 @@ pub fn c11(eng: &mut Engine, rng: &mut Rng, thorough: bool, out: &mut Out) -> Ca
                         }
                     }
                 }
+            }
+        }
+    }
+    cases
+}
+
+/// C13 (flows): the encoding is the same function at the sites that only run inside a flow — W3C issuance with string-typed and
+/// number-typed subject values, both conversions, holder processing, both provers and both verifiers: credentials whose values sit
+/// on the boundaries of the integer branch are issued in each form, converted, presented revealing every value, and must verify;
+/// the encoded values found in the objects must be the ones the unit function (op `enc`, judged by the model) gives.
+pub fn c13f(eng: &mut Engine, rng: &mut Rng, thorough: bool, out: &mut Out) -> Cases {
+    use anoncreds::data_types::w3c::credential_attributes::{CredentialAttributeValue as V, CredentialSubject};
+    use anoncreds::w3c::credential_conversion::{credential_from_w3c, credential_to_w3c};
+    let mut cases: Cases = vec![];
+    let w = eng.cast.w.clone();
+    let d = w.def("A");
+    let ls = eng.cast.holders[0].try_clone().unwrap();
+    let schemas = w.schemas();
+    let cred_defs = w.cred_defs();
+    let mut pool: Vec<String> = ["2147483647", "2147483648", "-2147483648", "-2147483649", "4915123456789", "+5", "007", "-0", "+0", "9223372036854775807", "9223372036854775808",
+        "99999999999999999999", "18446744073709551616", " 42", "42 ", "4 2", "1e3", "0x10", "", "text", "٤٢", "-", "+", "1.0", "00", "-007", "+2147483647", "+2147483648", "-2147483648 "].iter().map(|s| s.to_string()).collect();
+    if thorough {
+        for _ in 0..60 {
+            pool.push(format!("{}{}", if rng.chance(1, 3) { "-" } else { "" }, rng.next() % 10u64.pow(1 + rng.below(18) as u32)));
+        }
+    }
+    let names = d.schema.attr_names.0.clone();
+    for chunk in pool.chunks(names.len()) {
+        let mut vals: Vec<(String, String)> = names.iter().cloned().zip(chunk.iter().cloned()).collect();
+        while vals.len() < names.len() {
+            let k = vals.len();
+            vals.push((names[k].clone(), "pad".into()));
+        }
+        // request revealing every attribute
+        let attrs: serde_json::Map<String, Value> = names.iter().enumerate().map(|(i, n)| (format!("r{i}"), json!({"name": n}))).collect();
+        let reqj = json!({"nonce": format!("{}", 1000 + rng.below(1_000_000_000)), "name":"r","version":"1.0","requested_attributes": attrs, "requested_predicates": {}});
+        let req: PresentationRequest = serde_json::from_value(reqj.clone()).unwrap();
+        let case = |how: &str| json!({"fam":"c13.flow","sig":"","values": vals, "how": how});
+        let expect_enc = |out: &mut Out, cases: &mut Cases, how: &str, name: &str, raw: &str, enc: &str| {
+            // the encoded value an object carries is compared with the model through the unit op
+            cases.push((json!({"op":"enc","fam":"c13.flow","site":format!("flow:{how}"),"s":raw,"nt":true}), json!(enc)));
+            let _ = (out, name);
+        };
+        // (1) legacy issuance
+        let legacy = match crate::world::issue_plain(d, &ls, &vals) {
+            Ok(c) => c,
+            Err(e) => { out.oracle_fail("legacy issuance of boundary values failed", &case("legacy-issue"), &json!({"err": e.to_string()})); continue }
+        };
+        for (n, raw) in &vals {
+            expect_enc(out, &mut cases, "legacy-issue", n, raw, &legacy.values.0[n].encoded);
+        }
+        // (2) W3C issuance with every value as a JSON string, and with in-range integers as JSON numbers
+        let mut w3c_creds: Vec<(String, W3CCredential)> = vec![];
+        for typed in [false, true] {
+            let subject = CredentialSubject(vals.iter().map(|(k, v)| (k.clone(), match (typed, v.parse::<i32>()) { (true, Ok(n)) => V::Number(n), _ => V::String(v.clone()) })).collect());
+            let offer = issuer::create_credential_offer(d.sid.clone(), d.cid.clone(), &d.kcp).unwrap();
+            let (creq, meta) = prover::create_credential_request(Some("entropy"), None, &d.cd, &ls, "ls", &offer).unwrap();
+            match w3c::issuer::create_credential(&d.cd, &d.cdp, &offer, &creq, subject, None, None) {
+                Ok(mut c) => match w3c::prover::process_credential(&mut c, &meta, &ls, &d.cd, None) {
+                    Ok(()) => w3c_creds.push((format!("w3c-issue-{}", if typed { "typed" } else { "strings" }), c)),
+                    Err(e) => out.oracle_fail("holder rejects an honestly issued W3C credential with boundary values", &case("w3c-process"), &json!({"err": e.to_string()})),
+                },
+                Err(e) => out.oracle_fail("W3C issuance of boundary values failed", &case("w3c-issue"), &json!({"err": e.to_string()})),
+            }
+        }
+        // (3) conversions
+        if let Ok(c) = credential_to_w3c(&legacy, &d.issuer, None) {
+            w3c_creds.push(("legacy-to-w3c".into(), c));
+        } else {
+            out.oracle_fail("legacy credential with boundary values does not convert", &case("to-w3c"), &Value::Null);
+        }
+        let mut legacy_creds: Vec<(String, Credential)> = vec![("legacy-issue".into(), legacy.try_clone().unwrap())];
+        for (how, c) in &w3c_creds {
+            match credential_from_w3c(c) {
+                Ok(l) => {
+                    for (n, raw) in &vals {
+                        if how.ends_with("typed") && raw.parse::<i32>().is_ok() {
+                            continue; // the number's printed form, not the given spelling, is what was encoded
+                        }
+                        expect_enc(out, &mut cases, &format!("{how}-to-legacy"), n, raw, &l.values.0[n].encoded);
+                    }
+                    legacy_creds.push((format!("{how}-to-legacy"), l));
+                }
+                Err(e) => out.oracle_fail("W3C credential with boundary values does not convert", &case(how), &json!({"err": e.to_string()})),
+            }
+        }
+        // (4) present and verify in both formats, every value revealed
+        for (how, c) in &legacy_creds {
+            let mut pc = PresentCredentials::default();
+            {
+                let mut x = pc.add_credential(c, None, None);
+                for i in 0..names.len() { x.add_requested_attribute(format!("r{i}"), true); }
+            }
+            let v = match prover::create_presentation(&req, pc, None, &ls, &schemas, &cred_defs) {
+                Ok(p) => match verifier::verify_presentation(&p, &req, &schemas, &cred_defs, None, None, None) { Ok(true) => "T".to_string(), Ok(false) => "F".into(), Err(e) => format!("E:{e}") },
+                Err(e) => format!("present-err:{e}"),
+            };
+            out.count(&format!("c13:flow:legacy:{}", &v[..1]));
+            out.oracle_only += 1;
+            if v != "T" {
+                out.oracle_fail("honest legacy presentation revealing boundary values does not verify", &case(how), &json!({"outcome": v}));
+            }
+        }
+        for (how, c) in &w3c_creds {
+            let mut pc = PresentCredentials::default();
+            {
+                let mut x = pc.add_credential(c, None, None);
+                for i in 0..names.len() { x.add_requested_attribute(format!("r{i}"), true); }
+            }
+            let v = match w3c::prover::create_presentation(&req, pc, &ls, &schemas, &cred_defs, None) {
+                Ok(p) => match w3c::verifier::verify_presentation(&p, &req, &schemas, &cred_defs, None, None, None) { Ok(true) => "T".to_string(), Ok(false) => "F".into(), Err(e) => format!("E:{e}") },
+                Err(e) => format!("present-err:{e}"),
+            };
+            out.count(&format!("c13:flow:w3c:{}", &v[..1]));
+            out.oracle_only += 1;
+            if v != "T" {
+                out.oracle_fail("honest W3C presentation revealing boundary values does not verify", &case(how), &json!({"outcome": v}));
             }
         }
     }
